@@ -143,6 +143,7 @@ type machine struct {
 	Closed   bool   // Close was called
 	EndedBy  string // how the transaction ended
 	Fresh    bool   // NewBtree(fresh) reported success
+	Anomaly  bool   // an earlier call contradicted its prediction (keeps such sequences in a class of their own, so they get extended)
 
 	writes    []writeOp // successful write ops between Begin and phase 1 (ForWriting)
 	p1writes  []writeOp // successful write ops after phase 1: A.3 leaves their fate unspecified
@@ -165,8 +166,8 @@ func (m machine) key() string {
 	if m.Phase == PhCommitted || m.Phase == PhAborted {
 		closed = true // ending a transaction releases its resources anyway: Close adds no new class
 	}
-	return fmt.Sprintf("%s/pristine=%d/opened=%d/cursor=%d/dirty=%d/p1dirty=%d/closed=%d/fresh=%d/by=%s",
-		m.Phase, b(m.Pristine), b(m.Opened), b(m.Cursor), b(m.Dirty), b(m.P1Dirty), b(closed), b(m.Fresh), m.EndedBy)
+	return fmt.Sprintf("%s/pristine=%d/opened=%d/cursor=%d/dirty=%d/p1dirty=%d/closed=%d/fresh=%d/anomaly=%d/by=%s",
+		m.Phase, b(m.Pristine), b(m.Opened), b(m.Cursor), b(m.Dirty), b(m.P1Dirty), b(closed), b(m.Fresh), b(m.Anomaly), m.EndedBy)
 }
 
 // worthTrying prunes symbols that are equivalent to another symbol in this state.
